@@ -17,6 +17,7 @@ C01_MIX = {
     "creates": (60, 1500),
     "twotx": (50, 1200),
     "static": (20, 400),
+    "jump0": (24, 500),
 }
 
 
@@ -35,6 +36,18 @@ def callee_pool(rng, n=3, base=0x1100, depth=2):
 
 
 def make_case(kind, rng):
+    if kind == "jump0":
+        # the code starts with a JUMPDEST that is a jump target (a loop head / dispatcher at pc 0): the first pass sets a flag, a *taken*
+        # jump back to 0 (concrete JUMP, concretely true JUMPI, two-sided symbolic JUMPI, JUMPI implied by the path) then takes the exit
+        how = rng.choice(["jump", "jumpi-true", "jumpi-sym", "jumpi-implied"])
+        c = rng.choice([1, 2, 0x80])
+        back = {"jump": [0, "JUMP"], "jumpi-true": [rng.choice([1, 2**255]), 0, "JUMPI", "INVALID"],
+                "jumpi-sym": [4, "CALLDATALOAD", c, "AND", 0, "JUMPI", 0x33, 0x220, "MSTORE", 0x60, 0x200, "RETURN"],
+                "jumpi-implied": [4, "CALLDATALOAD", c, "AND", "ISZERO", "@skip", "JUMPI", 4, "CALLDATALOAD", c, "AND", 0, "JUMPI", "INVALID", ":skip", 0x44, 0x220, "MSTORE", 0x60, 0x200, "RETURN"]}[how]
+        toks = [":start", 0x7E0, "MLOAD", "@exit", "JUMPI", 1, 0x7E0, "MSTORE", 36, "CALLDATALOAD", 7, "ADD", 0x200, "MSTORE"] + back + [":exit", 0x99, 0x240, "MSTORE", 0x60, 0x200, "RETURN"]
+        code = asm(toks)
+        assert code[0] == 0x5B
+        return Case({0x1000: code}, ncd=2, label=kind, gen_features=["jump-to-pc0:" + how])
     if kind in ("single", "single-generic"):
         code, src, g = gen.gen_single(rng)
         ov = {"storage_layout": "generic"} if kind == "single-generic" else {}
